@@ -57,7 +57,7 @@ class C08(PropBase):
                 "observe_pending": True, "follow": True, "real_stream": True, "invalid_units": True, "illegal_p": rng.choice([0.05, 0.2, 0.5]), "byz_p": rng.choice([0.0, 0.0, 0.02, 0.06]),
                 "chunk": rng.choice(["whole", "mixed", "mixed", "byte"]), "term_p": rng.choice([0.0, 0.0, 0.01, 0.04]),
                 "max_out": rng.choice([1, 2, 3, 6]),
-                "big": rng.choice([0.02, 0.1]), "style": policy.wire_style(rng)}
+                "big": rng.choice([0.02, 0.1]), "style": policy.wire_style(rng), "bad_text": rng.choice([0.0, 0.0, 0.05])}
 
     def make(self, init):
         st = St(World(init))
@@ -70,7 +70,8 @@ class C08(PropBase):
         w = st.w
         init = w.init
         c, s = w.s["c"], w.s["s"]
-        g = Gen(rng, big=init["big"])
+        g = Gen(rng, big=init["big"], bad_text=init.get("bad_text", 0.0))
+        g.versions = True
         x = rng.random()
         # pending output is moved into the pipes eagerly (always complete drains)
         for who in ("c", "s"):
@@ -83,7 +84,9 @@ class C08(PropBase):
                 bk, scr = policy.buf_kind(rng)
                 return {"op": "deliver", "to": to, "n": policy.chunk_len(rng, len(w.s[to].inbox), init["chunk"]), "buf": bk, "scribble": scr}
         if rng.random() < init["byz_p"]:
-            return self._splice(st, rng, g)
+            gb = Gen(rng, big=init["big"])  # the byzantine peer's own generator: its text must be encodable by the harness encoder
+            gb.versions = True
+            return self._splice(st, rng, gb)
         closed = [n for n in ("c", "s") if w.s[n].model.st == "CL"]
         if closed:
             st.x["post_ops"] = st.x.get("post_ops", 0) + 1
